@@ -5,7 +5,7 @@
    the tag of the open finding whose site it is, 0 = unknown (a VIOLATION).
    No theorems here: this file must keep compiling when Tie.v breaks.      *)
 From Coq Require Import String List ZArith Bool.
-From Verif Require Import C18.AccessTypes C18.SiteCheck C18.Vars Generated.AccessSites.
+From Verif Require Import C18.AccessTypes C18.SiteCheck C18.Vars.
 Import ListNotations.
 Open Scope string_scope.
 
@@ -26,4 +26,7 @@ Fixpoint rows_from (i : Z) (l : list asite) : list (Z * Z * Z * Z) :=
               else rows_from (i + 1)%Z r
   end.
 
-Definition static_rows : list (Z * Z * Z * Z) := rows_from 0%Z access_sites.
+(* cases.v carries the site list the translator produced for the checkout
+   under test (so that a run against a scratch checkout does not depend on
+   coq/Generated, which concurrent runs regenerate from /repo) *)
+Definition rows_of (sites : list asite) : list (Z * Z * Z * Z) := rows_from 0%Z sites.
